@@ -109,20 +109,30 @@ impl Sampler for Multinomial {
 
 /// Sample an item from a vector of probabilities.
 ///
-/// Returns the index of the selected item, or `None` if the vector is empty
-/// or sums to less than 1.
+/// Items with zero probability are never selected. Returns the index of the
+/// selected item, or `None` if no item has a probability greater than zero
+/// (eg. because the vector is empty or contains NaNs).
 fn multinomial(rng: &mut fastrand::Rng, probs: &[f32]) -> Option<usize> {
     let target = rng.f32();
 
     let mut cum_prob = 0.;
+    let mut last_nonzero = None;
     for (idx, &prob) in probs.iter().enumerate() {
-        cum_prob += prob;
-        if target <= cum_prob {
-            return Some(idx);
+        // Only items with non-zero probability can be selected, so that a
+        // zero-probability item is not returned if `target` is zero. This
+        // test also excludes NaNs.
+        if prob > 0. {
+            cum_prob += prob;
+            if target <= cum_prob {
+                return Some(idx);
+            }
+            last_nonzero = Some(idx);
         }
     }
 
-    None
+    // Due to rounding the probabilities may sum to slightly less than
+    // `target`. In that case select the last item with non-zero probability.
+    last_nonzero
 }
 
 #[cfg(test)]
